@@ -10,6 +10,7 @@
     t:<node>:<tid>:<asking>:<out>    node answers a transaction (tid = id of its first command)
     E:<bid>:<ok|er>                  Exec / Receive returned
     g:<slot>:<dst>  k:<key idx>  f:<slot>  v:<slot>:<dst>     migration steps
+    x:<node>                         node taken down (unreachable)
     r  R  S                          CLUSTER SLOTS served (async) / installed / served+installed (sync)
     U:<bid>:<cmd>                    after a failed batch: <cmd> was never sent (node object closed)
     X                                sender retries after a failed batch (new segment)
@@ -21,6 +22,7 @@
 -/
 import GunYu.Model.Slot
 import GunYu.Model.ClusterRoute
+import GunYu.Model.ClusterSender
 namespace GunYu.Drive.C19
 open GunYu GunYu.ClusterRoute
 
@@ -82,6 +84,7 @@ def plainEv (acc : PAcc) (p : List String) : Option Ev :=
     let id ← nat? c
     let k ← (acc.keyOf.find? (·.1 == id)).map (·.2)
     pure (.unsent ⟨id, k⟩)
+  | ["x", n] => do pure (.nodeDown (← nat? n))
   | ["r"] => some .snapshot
   | ["R"] => some .install
   | ["S"] => some .refreshNow
@@ -134,6 +137,7 @@ def runTxn (ctx : Ctx) (tag : String) (n : Nat) (toks : List String) : List Stri
   let rec go (acc : TAcc) (i : Nat) : List String → Except String TAcc
     | [] => .ok acc
     | t :: ts =>
+      if t.startsWith "x:" then go acc (i + 1) ts else
       let r : Except String TAcc :=
         match t.splitOn ":" with
         | ["P", b, c, k, nd] =>
@@ -178,7 +182,26 @@ def runTxn (ctx : Ctx) (tag : String) (n : Nat) (toks : List String) : List Stri
 
 def parseCsv (s : String) : List String := if s == "." then [] else s.splitOn ","
 
+/-! sender decision table:  c19o <tag> <txnCluster 0|1> <pipeline 0|1> <class none|redirect|crossslot|other>
+    (the class of error every `sendFuncOnce` call of the failing batch returns)
+    →  "<tag> resends=<n> final=<eof|typology|break|other>" -/
+def senderLine (tag txn pipe cls : String) : String :=
+  let m : ClusterSender.SMode := ⟨txn == "1", pipe == "1"⟩
+  let outs : List (Option ClusterSender.SErr) :=
+    if cls == "redirect" then List.replicate 6 (some .redirect)
+    else if cls == "crossslot" then List.replicate 6 (some .crossslot)
+    else if cls == "other" then List.replicate 6 (some .other)
+    else [none]
+  let (n, f) := ClusterSender.sendFunc m outs 0
+  let fs := match f with
+    | .ok => "eof"
+    | .typology => "typology"
+    | .brk => "break"
+    | .other => "other"
+  s!"{tag} resends={n - 1} final={fs}"
+
 def handle : List String → Option (List String)
+  | ["c19o", tag, txn, pipe, cls] => some [senderLine tag txn pipe cls]
   | "c19" :: tag :: mode :: n :: keys :: own :: evs =>
     match nat? n, (parseCsv keys).mapM Hex.decode, (parseCsv own).mapM nat? with
     | some n, some ks, some ow =>
